@@ -94,6 +94,12 @@ pub fn inventory(thorough: bool) -> Report {
         let got = s.parse::<Checksum<D2>>().is_ok();
         if got != exp { r.violation("checksum_grammar", "checksum accepted/rejected against <algorithm>:<hex> with the digest's name and length", format!("{s:?}"), format!("{exp}"), format!("{got}")); }
     });
+    // a second ':' after a well-formed checksum (the part after the FIRST ':' must be hex as a whole)
+    for base in ["d2:a0F0", "d2:0000"] { for extra in [":", ":g", ":a0", ":d2:a0F0", "::", ":a0F0"] {
+        let s = format!("{base}{extra}");
+        r.evaluations += 1;
+        if s.parse::<Checksum<D2>>().is_ok() { r.violation("checksum_grammar", "checksum accepted/rejected against <algorithm>:<hex> with the digest's name and length", format!("{s:?}"), "false".into(), "true".into()); }
+    } }
     r.samples.push("versions [(0,1),(1,0),(1,1)] requirement <=(1,1) -> (1,1)".into());
     r
 }
